@@ -512,6 +512,8 @@ func init() {
 		// "fields not mentioned in an update keep their value" while the server is running: a partial update
 		// overlapping a usage upload (every interleaving of their database transactions)
 		jobs = append(jobs, vx.Job{Scenario: "panel.usage", Params: vx.P("sessions", "0.1", "ops", "up0.1:10,round,cap0", "db", "bolt"), Bound: map[string]int{"quick": 1, "thorough": 2}[tier], BudgetS: map[string]int{"quick": 100, "thorough": 900}[tier], Weight: 7})
+		// two users in one upload round: each record keeps its own values (the store stays keyed), also after reopening
+		jobs = append(jobs, vx.Job{Scenario: "panel.usage", Params: vx.P("sessions", "0.1,1.1", "ops", "up0.1:40,up1.1:25,down0.1:30,round,down1.1:9,round", "seq", "1", "db", "bolt"), Bound: 0, Weight: 3})
 		// the upload round that follows a deletion / an exhausted credit when the user's last session has already gone
 		jobs = append(jobs, vx.Job{Scenario: "panel.usage", Params: vx.P("sessions", "0.1", "ops", "up0.1:30,close0.1,delete0,round", "seq", "1", "db", "bolt"), Bound: 0, Weight: 3},
 			vx.Job{Scenario: "panel.usage", Params: vx.P("sessions", "0.1", "ops", "up0.1:300,close0.1,round", "upcredit", "200", "seq", "1", "db", "bolt"), Bound: 0, Weight: 3})
